@@ -36,6 +36,7 @@ type config struct {
 	GC        bool
 	Reopen    bool
 	Macro     bool
+	HeldIter  bool
 }
 
 const threshold = 32
@@ -64,25 +65,28 @@ func seqConfigs(r *vr.Run) []config {
 	gcCore := []string{"set:d:a:n32", "set:d:ab:n33", "del:d:a", "set:d:a:n31"}
 	if r.Quick() {
 		return []config{
-			{"sizes-1bucket", one, allSizes, 3, 2, 5, true, false, false},
-			{"gc-core-1bucket", one, gcCore, 3, 4, 7, true, false, false},
-			{"gc-core-2buckets-art", two, gcCore[:3], 3, 2, 5, true, true, false},
-			{"gc-macro", one, gcCore[:2], 4, 4, 8, true, false, true},
+			{"sizes-1bucket", one, allSizes, 3, 2, 5, true, false, false, false},
+			{"gc-core-1bucket", one, gcCore, 3, 4, 7, true, false, false, false},
+			{"gc-core-2buckets-art", two, gcCore[:3], 3, 2, 5, true, true, false, false},
+			{"gc-macro", one, gcCore[:2], 4, 4, 8, true, false, true, false},
 		}
 	}
 	return []config{
-		{"sizes-1bucket", one, allSizes, 4, 3, 7, true, true, false},
-		{"sizes-2buckets-art", two, allSizes, 3, 3, 6, true, true, false},
-		{"gc-core-1bucket", one, gcCore, 5, 5, 10, true, true, false},
-		{"gc-core-2buckets-art", two, gcCore, 4, 4, 8, true, true, false},
-		{"gc-macro", one, gcCore, 5, 8, 13, true, true, true},
+		{"sizes-1bucket", one, allSizes, 4, 3, 7, true, true, false, false},
+		{"sizes-2buckets-art", two, allSizes, 3, 3, 6, true, true, false, false},
+		{"gc-core-1bucket", one, gcCore, 5, 5, 10, true, true, false, false},
+		{"gc-core-2buckets-art", two, gcCore, 4, 4, 8, true, true, false, false},
+		{"gc-macro", one, gcCore, 5, 8, 13, true, true, true, false},
+		// a DB iterator held open across maintenance (rotate/flush/compaction/GC) must still
+		// return every live value
+		{"held-iterator", one, gcCore[:2], 4, 4, 10, true, false, false, true},
 	}
 }
 
 func params(c config, dir string, budget bool) *kvseq.Params {
 	p := &kvseq.Params{Cfg: c.Cfg, ClientOps: c.Ops, MaxClient: c.MaxClient, MaxMaint: c.MaxMaint,
 		WithGC: c.GC, WithReopen: c.Reopen, Macro: c.Macro, Dedup: true, BaseDir: dir,
-		Versioned: true, ProbeVers: []uint64{math.MaxUint64, 7}, RichSig: true, CheckIter: true, MeasureGC: true}
+		Versioned: true, ProbeVers: []uint64{math.MaxUint64, 7}, RichSig: true, CheckIter: true, MeasureGC: true, HeldIter: c.HeldIter}
 	if !budget {
 		p.MaxClient, p.MaxMaint, p.Dedup = 99, 99, false
 	}
@@ -224,12 +228,20 @@ func main() {
 	states := total.Card("states")
 	ops := opCounts(total, "op:")
 	conc := opCounts(total, "conc:")
-	if r.ReplayPath == "" && os.Getenv("VERIF_ONLY") == "" {
-		// non-vacuity: GC must actually have moved live values and removed files, sequentially and under concurrency
-		// (on the current tree a GC run that moved live values then fails its post-write sanity read
-		// - use after release of the pooled entry - so "moved" shows up as error-after-moving-live)
-		moved := ops["gc-effect:moved-live+removed-file"] + ops["gc-effect:moved-live-file-kept"] + ops["gc-effect:error-after-moving-live"]
-		removed := ops["gc-effect:moved-live+removed-file"] + ops["gc-effect:removed-file-only"]
+	if r.ReplayPath == "" && os.Getenv("VERIF_ONLY") == "" && r.Violations() == 0 {
+		// non-vacuity (only judged when nothing failed: a violation is reported as such): GC must
+		// actually have moved live values and removed files, sequentially and under concurrency.
+		// (On the current tree a GC run that moved live values then fails its post-write sanity
+		// read - use after release of the pooled entry - so "moved" shows up as error-after-moving-live.)
+		var moved, removed int64
+		for k, v := range ops {
+			if strings.HasPrefix(k, "gc-effect:") && (strings.Contains(k, "moved-live") || strings.Contains(k, "moving-live")) {
+				moved += v
+			}
+			if strings.HasPrefix(k, "gc-effect:") && strings.Contains(k, "removed-file") {
+				removed += v
+			}
+		}
 		if moved == 0 || removed == 0 {
 			vr.Fatalf("vacuous: sequential GC moved live values %d times, removed files %d times: %v", moved, removed, ops)
 		}
@@ -266,6 +278,11 @@ func mustConc(sc scenario, dir string) *concInst {
 	in := newConc(sc, dir)
 	if in.pending == "prefix-failed" || in.pending == "open-failed" {
 		vr.Fatalf("scenario %s: %s: %s", sc.Name, in.pending, in.pendDsc)
+	}
+	if sig, desc := in.Check(); sig != "" {
+		// the sequential prefix already violates the read oracle: report that, not a harness error
+		in.pending, in.pendDsc = sig, "after the sequential prefix: "+desc
+		return in
 	}
 	ok := false
 	for _, op := range in.h.MaintMenu(true, false) {
